@@ -19,7 +19,7 @@ func execCommand(conn *redis.Conn, fn func()) {
 	defer func() {
 		if r := recover(); r != nil {
 			log.Println("Recovered error: ", r)
-			conn.WriteError("WRONGTYPE " + r.(error).Error())
+			conn.WriteError("WRONGTYPE " + fmt.Sprint(r))
 			return
 		}
 	}()
@@ -461,7 +461,7 @@ func exec(n *Nodis, conn *redis.Conn, cmd redis.Command) {
 			defer func() {
 				if r := recover(); r != nil {
 					log.Println("Recovered error: ", r)
-					conn.WriteError("WRONGTYPE " + r.(error).Error())
+					conn.WriteError("WRONGTYPE " + fmt.Sprint(r))
 					return
 				}
 			}()
